@@ -219,7 +219,7 @@ def scratch_dir(prefix):
 # updated in place by the diff parser, one that went through pickle, or one whose lazily filled slots were already read must
 # satisfy them as well.  ``tree_via`` produces the tree of ``code`` through the drawn provenance; ``observe(module, text)`` is
 # the property's own reader, run on the *earlier* state so that anything a reader may memoise is filled before the tree changes.
-PROVENANCES = ['fresh', 'fresh', 'fresh', 'observed', 'diffed', 'diffed', 'unpickled']
+PROVENANCES = ['fresh', 'fresh', 'fresh', 'observed', 'observed-aborted', 'diffed', 'diffed', 'unpickled']
 
 
 def tree_shape(node):
@@ -269,6 +269,10 @@ def tree_via(g, code, provenance, how, key, observe):
     if provenance == 'observed':
         observe(fresh, code)
         return fresh, 'observed'
+    if provenance == 'observed-aborted':
+        # a reader that was interrupted (exception at its n-th line inside the library) and the tree used again afterwards
+        aborted(lambda: observe(fresh, code), 3 + how % 400)
+        return fresh, 'observed-aborted'
     if provenance == 'unpickled':
         observe(fresh, code)
         return _pickle.loads(_pickle.dumps(fresh, protocol=2 + how % 4)), 'unpickled'
@@ -302,7 +306,10 @@ class Abort(BaseException):
 _PARSO_ROOT = os.path.join(os.path.abspath(REPO), 'parso') + os.sep
 DISTURB_TEXTS = ['def f(a):\n    if a:\n        b = = 1\n', 'x\n    y )\n  z\n', 'class A:\n  def f(self):\n      (\n  x = f"{\n',
                  'if x:\n        a\n    b\n c\n', 'def f():\n\tx = [\n\t1,\n', 'for a in b:\n    try:\n        c\n  d\n    e\n',
-                 'if x:\n    def g(a, b=f"{x!r:>{w}}"):\n        return lambda: (yield)\n    else\n']
+                 'if x:\n    def g(a, b=f"{x!r:>{w}}"):\n        return lambda: (yield)\n    else\n',
+                 # operations that stop inside an f-string replacement field, for several opening tokens
+                 's = f"{a b}"\n', "s = f'{a b}'\n", "if x:\n    s = rf\'\'\'{a + (b\n", 'x = F"""{[1,\n 2 3]}"""\n', "print(fr'{a!r:{w} }' 1)\n",
+                 "s = f'{f\"{a b}\"}'\n", '1 +', 'x = (1, 2', 'f(a b)', 'lambda: 1 1']
 
 
 def aborted(fn, n):
@@ -338,10 +345,11 @@ def disturb(g, h):
     import parso as _parso
     from parso.python.tokenize import tokenize as _tokenize
     text = DISTURB_TEXTS[(h >> 3) % len(DISTURB_TEXTS)]
-    mode = h % 6
+    mode = h % 9
     if mode == 0:
+        kw = {'start_symbol': 'eval_input'} if (h >> 16) % 2 else {}       # (the other start rule of the grammar files)
         try:
-            g.parse(text, error_recovery=False)
+            g.parse(text, error_recovery=False, **kw)
         except _parso.ParserSyntaxError:
             pass
     elif mode == 1:
@@ -356,8 +364,29 @@ def disturb(g, h):
         elif mode == 4:
             m = g.parse(text)
             aborted(lambda: list(g.iter_errors(m)), n)
+        elif mode == 5:
+            kw = {'start_symbol': 'eval_input'} if (h >> 16) % 2 else {}
+            aborted(lambda: g.parse(text, error_recovery=False, **kw), n)
+        elif mode == 6:
+            m = g.parse(text)
+            aborted(lambda: g._get_normalizer_issues(m), n * 3)
+        elif mode == 7:
+            m = g.parse(text)
+            leaf = m.get_first_leaf()
+            mapping = {}
+            while leaf is not None:
+                mapping[leaf] = 'R'
+                leaf = leaf.get_next_leaf()
+            if (h >> 16) % 2:
+                aborted(lambda: g.refactor(m, mapping), n)
+            else:
+                try:
+                    g.refactor(m, dict(mapping, **{}) if not mapping else {**mapping, m.get_last_leaf(): 5})     # a non-str replacement: TypeError
+                except TypeError:
+                    pass
         else:
-            aborted(lambda: g.parse(text, error_recovery=False), n)
+            m = g.parse(text)
+            aborted(lambda: (m.get_used_names(), [n_.is_definition() for ns in m.get_used_names().values() for n_ in ns]), n)
 
 
 def case_int(*parts):
